@@ -53,7 +53,7 @@ Lemma sign_impl_is_rfc6979 P sk msg :
   sign_core P sk (generate_k hmac_sha256 (sk_d sk) z []) z.
 Proof.
   rewrite sign_impl_digest. unfold sign_with_digest, det_nonce, scalar_be. rewrite magic_digest_spec. cbv zeta.
-  f_equal. apply generate_k_ext. intros k m. apply crate_mac_sha256r.
+  rewrite (generate_k_ext (crate_mac (adapter_impl ASha256r)) hmac_sha256 crate_mac_sha256r). reflexivity.
 Qed.
 
 (* ------------------------------------------------------------------ *)
@@ -74,7 +74,7 @@ Proof.
   unfold verify_digest. cbn [p_decode p_verify ref_prims].
   destruct (sec1_decode (pk_point pk)) as [Q|] eqn:Ed; cbn [bind]; [|discriminate].
   destruct (prim_verify Q _ _) eqn:Ev; cbn [bind]; [|discriminate].
-  intros _. exists pk, Q. split; [reflexivity|]. split; [exact Eh|]. split; [reflexivity|].
+  intros _. exists pk, Q. split; [reflexivity|]. split; [exact Eh|]. split; [exact Ed|].
   rewrite <- magic_digest_spec. exact Ev.
 Qed.
 
